@@ -91,7 +91,8 @@ class ReadCd(SCSICommand):
         :return result: a dict
         """
         result = {}
-
+        # the optional arguments default to 0 as they do in the constructor
+        kwargs = {"est": 0, "mcsb": 0, "c2ei": 0, "scsb": 0, **kwargs}
         est = kwargs["est"]
         mcsb = kwargs["mcsb"] << 3
         # Need to remap according to MMC:
